@@ -71,6 +71,35 @@ fn children(n: &dom::XmlNode) -> Vec<dom::XmlNode> {
     out
 }
 
+/// the child list must be what the walk first_child / next_sibling and the walk last_child /
+/// previous_sibling see (same nodes, same order): the items a document exposes do not depend on the
+/// accessor they are read with (seeded change W9-C01-2: a fast path of last_child answered a raw
+/// reference node where child_nodes shows the merged text)
+fn nav_agrees(n: &dom::XmlNode) -> bool {
+    let key = |x: &dom::XmlNode| (x.id(), x.node_type() as u8, x.node_value().ok().flatten());
+    let list: Vec<_> = children(n).iter().map(key).collect();
+    let mut fwd = vec![];
+    let mut cur = n.first_child();
+    while let Some(c) = cur {
+        if fwd.len() > list.len() + 1 {
+            return false;
+        }
+        fwd.push(key(&c));
+        cur = c.next_sibling();
+    }
+    let mut bwd = vec![];
+    let mut cur = n.last_child();
+    while let Some(c) = cur {
+        if bwd.len() > list.len() + 1 {
+            return false;
+        }
+        bwd.push(key(&c));
+        cur = c.previous_sibling();
+    }
+    bwd.reverse();
+    fwd == list && bwd == list
+}
+
 fn pi_token(target: &str, data: &str) -> String {
     format!("p:{}:{}", enc(target), enc(data))
 }
@@ -157,6 +186,9 @@ fn dump_node(n: &dom::XmlNode, out: &mut Vec<String>) {
             drop(e);
             rows.sort();
             out.extend(rows.into_iter().map(|x| x.1));
+            if !nav_agrees(n) {
+                out.push("?nav".to_string());
+            }
             for c in children(n) {
                 dump_node(&c, out);
             }
